@@ -603,3 +603,52 @@ func c25RetryAfterTimeout() *explore.Scenario {
 		},
 	}
 }
+
+// c25CoalescedPostHandshake — a TLS 1.3 peer may put several post-handshake messages into one
+// record: n KeyUpdates in one record, then application data under the n-times updated key. The
+// reader must process every message of the record and deliver the data.
+func c25CoalescedPostHandshake() *explore.Scenario {
+	ids := []tls.ClientHelloID{tls.HelloGolang, tls.HelloChrome_Auto, tls.HelloFirefox_Auto}
+	return &explore.Scenario{
+		Name: "several-post-handshake-messages-in-one-record",
+		Run: func(x *explore.X) (r explore.Result) {
+			id := ids[x.Choose("client", len(ids))]
+			n := 1 + x.Choose("messages-in-the-record", 4)
+			rounds := 1 + x.Choose("rounds", 2)
+			what := fmt.Sprintf("%s: %d x (one record with %d KeyUpdates, then 300 bytes of data)", id.Client, rounds, n)
+			msg := payload(300, 0x5e)
+			hs := peer.Run(peer.ClientConfig("example.com"), id, peer.ServerConfig(), peer.Opts{KeepOpen: true,
+				ServerAfter: func(c *tls.Conn) error {
+					for i := 0; i < rounds; i++ {
+						if err := tls.VerifSendKeyUpdatesCoalesced(c, n); err != nil {
+							return err
+						}
+						if _, err := c.Write(msg); err != nil {
+							return err
+						}
+					}
+					return nil
+				}})
+			defer hs.Finish()
+			if !hs.OK() || hs.U.ConnectionState().Version != tls.VersionTLS13 {
+				r.Violate("INFRA|c25-coalesced-handshake", "%s: %v / %v", what, hs.CErr, hs.SErr)
+				return
+			}
+			r.Nontrivial = true
+			r.Class = what
+			got := make([]byte, rounds*len(msg))
+			if k, err := io.ReadFull(hs.U, got); err != nil {
+				r.Violate(fmt.Sprintf("C25|coalesced-post-handshake|messages=%d|%s", n, truncStr(errClass(err), 60)), "%s: read %d of %d bytes: %v", what, k, len(got), err)
+				return
+			}
+			for i := 0; i < rounds; i++ {
+				if !bytes.Equal(got[i*len(msg):(i+1)*len(msg)], msg) {
+					r.Violate("C25|coalesced-post-handshake|data-differs", "%s: round %d", what, i)
+				}
+			}
+			r.Count("coalesced_records_processed", rounds)
+			r.Obs = "ok"
+			return
+		},
+	}
+}
